@@ -561,7 +561,7 @@ func splitTags(head string) (kind string, tags []string, label string) {
 		kind = head[:i]
 		inner := head[i+1 : len(head)-1]
 		for _, t := range strings.FieldsFunc(inner, func(r rune) bool { return r == ',' || r == ' ' }) {
-			if (strings.HasPrefix(t, "C") && len(t) >= 3 && unicode.IsDigit(rune(t[1]))) || t == "T" {
+			if (strings.HasPrefix(t, "C") && len(t) >= 3 && unicode.IsDigit(rune(t[1]))) || t == "T" || t == "A" {
 				// T = thorough tier only (obligations that need more solver time than the quick budget allows)
 				tags = append(tags, t)
 			} else {
@@ -940,6 +940,9 @@ func ParseSpecFile(path, pkg string) (*SpecFile, error) {
 				}
 				curL.Clauses = append(curL.Clauses, c)
 			} else {
+				if kind == "ensures" && hasTag(c.Tags, "A") {
+					sf.Assumes = append(sf.Assumes, "assumed postcondition (not checked against the body): "+curF.Key+": "+it.rest)
+				}
 				curF.Clauses = append(curF.Clauses, c)
 			}
 		}
